@@ -44,11 +44,16 @@ SHADOWABLE = [("clock", {"o": "native"}), ("Range", cls("Range")), ("HashMap", c
 SMREG = "var hooks = [];\n"
 
 
-def module_source(m, site):
-    # the module hands a callback to an already loaded module (the registry) BEFORE the point where its body may fail
-    return ('print(("ev", "load", "sm%d"));\nvar mv = 1;\nfn bump() { mv = mv + 1; return mv; }\n'
+NVERSIONS = 8
+
+
+def module_source(m, site, version=0):
+    # the module hands a callback to an already loaded module (the registry) BEFORE the point where its body may fail.
+    # The simulated file system serves a different version of the file at every read (the file was edited meanwhile): what an
+    # import after a reset loads is what the loader serves then, not what an earlier load compiled
+    return ('print(("ev", "load", "sm%d", %d));\nvar mv = %d;\nfn bump() { mv = mv + 1; return mv; }\n'
             'import "smreg";\nsmreg.hooks.push(bump);\n'
-            'print(("chk", "%s"));\nprint(("ev", "loaded", "sm%d"));\n' % (m, site, m))
+            'print(("chk", "%s"));\nprint(("ev", "loaded", "sm%d"));\n' % (m, version, 1 + 1000 * version, site, m))
 
 
 class Gen:
@@ -133,12 +138,16 @@ class Gen:
                 out.append(["callcap", k, self.id()])
             elif kind == "callhook":
                 out.append(["callhook", r.below(4), self.id()])
+            elif kind == "setrange":
+                out.append(["setrange", k])
+            elif kind == "cmprange":
+                out.append(["cmprange", k, self.id()])
         return out
 
 
 KINDS_W = [("set", 10), ("inc", 10), ("assign", 6), ("chk", 12), ("probe", 10), ("call", 12), ("tryfin", 8), ("trycatch", 6),
            ("fiber", 6), ("fiber2", 4), ("method", 5), ("classcrash", 3), ("deffn", 5), ("callfn", 7), ("defclass", 4),
-           ("useclass", 5), ("deffiber", 4), ("resume", 7), ("import", 6), ("modcall", 6), ("throw", 5), ("poke", 3), ("corelib", 6), ("shadow", 4), ("useshadow", 6), ("capcrash", 5), ("callcap", 7), ("callhook", 7)]
+           ("useclass", 5), ("deffiber", 4), ("resume", 7), ("import", 6), ("modcall", 6), ("throw", 5), ("poke", 3), ("corelib", 6), ("shadow", 4), ("useshadow", 6), ("capcrash", 5), ("callcap", 7), ("callhook", 7), ("setrange", 3), ("cmprange", 5)]
 
 
 def gen_session(seed):
@@ -269,6 +278,12 @@ def render_snip(stmts, uid, stale=()):
             # a callback a module body handed to the registry module - possibly a module whose body failed afterwards
             out.append('import "smreg"; if smreg.hooks.len() > %d { print(("ev", %d, smreg.hooks[%d]())); } else { print(("ev", %d, "nohook")); }' % (
                 st[1], st[2], st[1], st[2]))
+        elif k == "setrange":
+            # a range kept in a global; at most three distinct ranges exist per session, so the interpreter's 8-entry range
+            # cache never evicts and an equal range literal evaluated later is == to it (and finds it as a map key)
+            out.append("var rg%d = %d..%d;" % (st[1], st[1] + 1, st[1] + 5))
+        elif k == "cmprange":
+            out.append('print(("ev", %d, rg%d == %d..%d, {rg%d: 1}.has_key(%d..%d)));' % (st[2], st[1], st[1] + 1, st[1] + 5, st[1], st[1] + 1, st[1] + 5))
         elif k == "corelib":
             # names and classes the core library defines: present on a new interpreter, so present after every snippet and reset
             out.append('print(("ev", %d, [1, 2].iter().map(|x| { return x + 1; }).collect(), [1, 2, 3].iter().filter(|x| { return x != 2; }).collect(), '
@@ -317,10 +332,12 @@ def model(ir, faults):
     outs = []
     st = {}
     snap = {}
+    fsreads = {}          # reads of each module file so far: a property of the simulated file system, not of the interpreter
+    fs_snap = {}
 
     def fresh():
         st.clear()
-        st.update(G={}, funcs={}, classes={}, fibers={}, names=set(), mods={}, shadows={}, caps={}, oneshot=set(), hooks=[])
+        st.update(G={}, funcs={}, classes={}, fibers={}, names=set(), mods={}, shadows={}, caps={}, oneshot=set(), hooks=[], ranges=set())
 
     fresh()
 
@@ -345,6 +362,8 @@ def model(ir, faults):
             fresh()
             snap.clear()
             snap.update(occ)
+            fs_snap.clear()
+            fs_snap.update(fsreads)
             probes.inc("resets")
             outs.append({"kind": "reset", "events": []})
             continue
@@ -482,8 +501,12 @@ def model(ir, faults):
                         raise Crash("ImportError")
                     if ms["state"] == "unloaded":
                         ms["state"] = "failed"     # until the body completes
-                        ev.append([s("load"), s("sm%d" % m)])
-                        ms["mv"] = 1
+                        version = min(fsreads.get(m, 0), NVERSIONS)
+                        fsreads[m] = fsreads.get(m, 0) + 1
+                        if version > 0:
+                            probes.inc("module_file_changed_between_loads")
+                        ev.append([s("load"), s("sm%d" % m), num(version)])
+                        ms["mv"] = 1 + 1000 * version
                         st["hooks"].append(m)
                         chk(ir["mod_sites"][str(m)], "module_body")
                         ev.append([s("loaded"), s("sm%d" % m)])
@@ -550,6 +573,14 @@ def model(ir, faults):
                         ev.append([num(stt[2]), num(ms["mv"])])
                     else:
                         ev.append([num(stt[2]), s("nohook")])
+                elif k == "setrange":
+                    st["ranges"].add(stt[1])
+                elif k == "cmprange":
+                    if stt[1] not in st["ranges"]:
+                        probes.inc("crash_at:nameerror_top")
+                        raise Crash("NameError")
+                    probes.inc("range_from_earlier_snippet_compared")
+                    ev.append([num(stt[2]), {"b": True}, {"b": True}])
                 elif k == "corelib":
                     probes.inc("core_library_used")
                     ev.append([num(stt[1]), {"v": [num(2), num(3)]}, {"v": [num(1), num(3)]}, cls("ErrorClass"), num(5),
@@ -560,7 +591,7 @@ def model(ir, faults):
         except Crash as c:
             probes.inc("crashed_snippets")
             outs.append({"kind": "err", "events": ev, "needle": c.needle})
-    return {"outs": outs, "fired": fired, "probes": probes, "taint": taint, "occ_at_last_reset": snap}
+    return {"outs": outs, "fired": fired, "probes": probes, "taint": taint, "occ_at_last_reset": snap, "fsreads_at_last_reset": fs_snap}
 
 
 def programs_of(ir):
@@ -575,7 +606,8 @@ def programs_of(ir):
             progs.append({"kind": "exec", "name": "%s%d" % (item[2], item[1]), "args": [3, 4, 5][:item[3]]})
         else:
             progs.append({"kind": "snippet", "source": render_snip(item[1], i, stale.get(i, []))})
-    fs = {"sm%s" % m: {"source": module_source(int(m), site), "reads": []} for m, site in ir["mod_sites"].items()}
+    fs = {"sm%s" % m: {"source": module_source(int(m), site, NVERSIONS),
+                       "reads": ["src:" + module_source(int(m), site, v_) for v_ in range(NVERSIONS)]} for m, site in ir["mod_sites"].items()}
     fs["smreg"] = {"source": SMREG, "reads": []}
     return progs, fs
 
@@ -780,7 +812,12 @@ class C15:
                     for o_, kd in m_.items():
                         if int(o_) > snap.get(site, 0):
                             f2.setdefault(site, {})[str(int(o_) - snap.get(site, 0))] = kd
-                suffix = dict(sc, programs=progs[last_reset + 1:], faults=f2)
+                # ... and the file system is the one the session has reached by then (reads already served are gone)
+                fs2 = {}
+                for path_, ent in sc["fs"].items():
+                    done = exp["fsreads_at_last_reset"].get(int(path_[2:]), 0) if path_[2:].isdigit() else 0
+                    fs2[path_] = dict(ent, reads=ent["reads"][done:])
+                suffix = dict(sc, programs=progs[last_reset + 1:], faults=f2, fs=fs2)
                 h2 = ctx.run(config, suffix)
                 stats.inc("executions")
                 po = process_outcome(h2)
